@@ -23,10 +23,59 @@ func (r *Begin) Evaluation(
 	t *base.T,
 ) (err error) {
 
-	err = e.EvalToTargetToken(p, ctx, "end")
-	if err != nil {
-		return err
+	// the value of 'begin ... end' is the value of its body or of the rescue
+	// clause that handled the exception; an ensure clause has no say in it
+	var resultTs []base.T
+
+	isEnsure := false
+
+	// (a clause keyword is the first token of its line: 'x = y rescue nil'
+	// inside the body is a modifier)
+	isLineStart := true
+
+	for {
+		nextT, err := p.Read()
+		if err != nil {
+			return err
+		}
+
+		if nextT == nil {
+			return nil
+		}
+
+		isClauseStart := isLineStart
+		isLineStart = nextT.IsNewLineIdentifier()
+
+		if nextT.IsTargetIdentifier("end") {
+			if !isEnsure {
+				resultTs = append(resultTs, p.GetLastEvaluatedT())
+			}
+
+			break
+		}
+
+		if isClauseStart && nextT.IsTargetIdentifiers([]string{"rescue", "ensure"}) {
+			if !isEnsure {
+				resultTs = append(resultTs, p.GetLastEvaluatedT())
+			}
+
+			isEnsure = isEnsure || nextT.IsTargetIdentifier("ensure")
+
+			// a clause without statements has the value nil
+			p.SetLastEvaluatedT(base.MakeNil())
+
+			if nextT.IsTargetIdentifier("ensure") {
+				continue
+			}
+		}
+
+		err = e.Eval(p, ctx, nextT)
+		if err != nil {
+			return err
+		}
 	}
+
+	e.setLastEvaluatedT(p, ctx, base.MakeUnifiedT(resultTs))
 
 	return nil
 }
